@@ -33,6 +33,7 @@ static uint32 g_mac_len;
 static unsigned char g_mac_type;
 static uint8_t g_hs_state_at_parse;
 static int g_mac_after_dec;
+static int g_cb_range_bad;
 static int g_sha_updates;
 static uint8_t g_hs_state_at_activate;
 static uint32 g_flags_at_activate;
@@ -52,6 +53,14 @@ static int32 vf_decrypt(void *ctx, unsigned char *in, unsigned char *out, uint32
     g_dec_out = out;
     g_dec_len = len;
     g_mac_after_dec = 0;
+    /* what every real cipher callback relies on: both ranges lie inside the
+       input buffer (they read/write len bytes) */
+    if (len > VF_N || in < S_inbuf || in + len > S_inbuf + VF_N || out < S_inbuf || out + len > S_inbuf + VF_N)
+    {
+        g_cb_range_bad++;
+        g_dec_rc = -1;
+        return -1;
+    }
     /* contract of the real AEAD open functions (decided in C02.a): a record
        not longer than explicit nonce + tag is rejected */
     if (ssl->flags & SSL_FLAGS_AEAD_R)
@@ -85,6 +94,13 @@ static int32 vf_verifyMac(void *ctx, unsigned char type, unsigned char *data, ui
 {
     int32 rc = vf_i32();
 
+    /* the real MAC callbacks hash len bytes at data and compare the
+       deMacSize bytes at mac */
+    if (len > VF_N || data < S_inbuf || data + len > S_inbuf + VF_N ||
+        mac < S_inbuf || mac + ((ssl_t *) ctx)->deMacSize > S_inbuf + VF_N)
+    {
+        g_cb_range_bad++;
+    }
     g_mac_calls++;
     g_mac_type = type;
     g_mac_data = data;
@@ -473,6 +489,7 @@ VF_MAIN
 # endif
     }
 #endif
+    VF_ASSERT(g_cb_range_bad == 0, "c08.cipher_callback_ranges_inside_input_buffer");
     (void) in_copy;
     VF_REACH("end");
 }
